@@ -351,7 +351,7 @@ Proof. vm_compute. repeat split. Qed.
 (* T2: the constructor models themselves are minimal, for ALL parameters: every non-empty pattern over the
    alphabet (from_substring / from_suffix / from_prefix), every pattern incl. the empty one
    (from_subsequence), every non-empty range with a counted symbol in the alphabet (of_length), every n and
-   symbol (nth_from_start, one-symbol alphabets included).  Only from_prefix with an error state (complement
+   symbol (nth_from_start and the 2^n-state shift register of nth_from_end, one-symbol alphabets included).  Only from_prefix with an error state (complement
    or complete form) needs a second symbol - otherwise the error state is unreachable.  Each proof exhibits an
    access word for every state and a distinguishing word for every pair of states (Proofs/CtorMinimal.v);
    `passes m` = the executable test says so AND m is minimal of its kind in the sense of Spec/Minimal.v. *)
@@ -366,7 +366,8 @@ Theorem C15_constructors_minimal : forall syms, NoDup syms ->
   (forall p c ap, p <> [] -> word_over syms p -> 2 <= length syms -> passes (from_prefix_m syms p c ap)) /\
   (forall lo hi cnt, (exists a, In a syms /\ In a (counted_set syms cnt)) ->
      match hi with Some h => lo <= h | None => True end -> passes (of_length_m syms lo hi cnt)) /\
-  (forall s n m, nth_from_start_m syms s n = Ok m -> passes m).
+  (forall s n m, nth_from_start_m syms s n = Ok m -> passes m) /\
+  (forall s n m, nth_from_end_m syms s n = Ok m -> passes m).
 Proof.
   intros syms Hnd.
   assert (passes_intro : forall m, valid_dfa m = true -> is_minimal m = true -> passes m).
@@ -385,7 +386,8 @@ Proof.
           apply passes_intro; [apply from_prefix_valid|apply from_prefix_is_minimal]; try assumption; intros _; exact H2|].
   split; [intros lo hi cnt [a [Ha Hc]] Hr;
           apply passes_intro; [apply of_length_valid; exact Hnd|apply (of_length_is_minimal syms lo hi cnt a); assumption]|].
-  intros s n m Hm. apply passes_intro; [eapply nth_from_start_valid; eassumption|eapply nth_from_start_is_minimal; eassumption].
+  split; [intros s n m Hm; apply passes_intro; [eapply nth_from_start_valid; eassumption|eapply nth_from_start_is_minimal; eassumption]|].
+  intros s n m Hm. apply passes_intro; [eapply nth_from_end_valid; eassumption|eapply nth_from_end_is_minimal; eassumption].
 Qed.
 Print Assumptions C15_constructors_minimal.
 
